@@ -7,6 +7,7 @@ package metrics
 
 import (
 	"net/http"
+	"strings"
 
 	"github.com/prometheus/client_golang/prometheus"
 	"github.com/prometheus/common/expfmt"
@@ -47,9 +48,12 @@ func (h *storesHandler) serveKsmHTTP(w http.ResponseWriter, r *http.Request) {
 	// https://prometheus.io/docs/instrumenting/exposition_formats/#text-based-format
 	resHeader.Set("Content-Type", `text/plain; version=`+"0.0.4")
 
-	// Write KSM families
-	if err := metricsstore.NewMetricsWriter(h.stores...).WriteAll(w); err != nil {
-		log.Error(err, "Unable to write metrics")
+	// Write KSM families: a MetricsWriter only supports stores sharing the same metric headers,
+	// so use one writer per group of stores registered with the same families.
+	for _, stores := range h.stores {
+		if err := metricsstore.NewMetricsWriter(stores...).WriteAll(w); err != nil {
+			log.Error(err, "Unable to write metrics")
+		}
 	}
 
 	// Write extra metrics
@@ -68,11 +72,22 @@ func (h *storesHandler) serveKsmHTTP(w http.ResponseWriter, r *http.Request) {
 
 func (h *storesHandler) RegisterStore(generators []generator.FamilyGenerator, expectedType interface{}, lw cache.ListerWatcher) error {
 	store := newMetricsStore(generators, expectedType, lw)
-	h.stores = append(h.stores, store)
+	key := strings.Join(generator.ExtractMetricFamilyHeaders(generators), "\n")
+	for i, k := range h.keys {
+		if k == key {
+			h.stores[i] = append(h.stores[i], store)
+
+			return nil
+		}
+	}
+	h.keys = append(h.keys, key)
+	h.stores = append(h.stores, []*metricsstore.MetricsStore{store})
 
 	return nil
 }
 
 type storesHandler struct {
-	stores []*metricsstore.MetricsStore
+	// keys[i] identifies the metric headers shared by the stores in stores[i].
+	keys   []string
+	stores [][]*metricsstore.MetricsStore
 }
